@@ -609,4 +609,112 @@ theorem quic_capture_session2 (hl : H.Lawful) (h32 : H.sha256.outLen = 32) (L : 
   exact ⟨hcapOk, S1, S2, _, hS, by rw [hmeta]; exact r2⟩
 
 end Final2
+section Capture2
+open TLX.Export TLX.Quic.Session TLX.Cipher TLX.Props.C02Session TLX.Spec.KeySchedules
+variable (maskFn : Quic.Dissect.MaskFn) (H : Crypto.Prims) (Pc : Cipher.Prims)
+
+/-- EVERYTHING `quic_capture_exact2` assumes. Parameters as in `C02File.QuicCapture`; the capture is `evsA ++ evsB`:
+    `evsA` the connection's mixed part (`QEv2.mix`), `evsB` its 1-RTT-only part (`QEv2.one`), both interleaved with packets of
+    OTHER QUIC connections (`QEv2.other`) and packets the loop does not take for QUIC (`QEv2.foreign`). -/
+structure QuicCapture2 (L : SealLaws Pc) (args : Args) (keyFile : Option Keylog.Str) (pm : List (Int × Int))
+    (ports : List Int) (fl : Flow) (hs : ConfHs) (ch sh ca sa : Bytes) (early : Option Bytes) (sel : SuiteSel)
+    (evsA evsB : List QEv2) (kl0 : List Keylog.Key) (p0 : MainLoop.Pkt) (d0 : DgM)
+    (itemsA : List (List Keylog.Key × MainLoop.Pkt × DgM)) : Prop where
+  lawful : H.Lawful
+  sha256 : H.sha256.outLen = 32
+  times : ∀ e ∈ (evsA ++ evsB).map QEv2.cap, Ingest.isMinusOne e.t = false
+  noc : args.checksumTest = false
+  nometa : args.metadata = false
+  pmOk : Options.getPortMap Options.Src.bare args.mArg = .ok pm
+  portsOk : Options.serverPorts Options.Src.builtin Options.Src.pDefault args.pArg = .ok ports
+  endpoints : clientEp fl ≠ serverEp fl
+  clientPort : ports.contains (fl.clientPort : Int) = false
+  hsOk : hs.Ok
+  suite : selectSuite hs.sh.cipherSuite = some sel
+  outLen : (hashOf H sel.hash).outLen < 65536
+  saLen : sa.length = (hashOf H sel.hash).outLen
+  caLen : ca.length = (hashOf H sel.hash).outLen
+  keylog : KeylogHas ((fileKeysOf keyFile).getD []) hs.ch.random ch sh ca sa early
+  /-- the first datagram of the connection in the capture is the client's first flight: it begins with an Initial packet -/
+  first : mixItems fl ((fileKeysOf keyFile).getD []) 0 evsA = (kl0, p0, d0) :: itemsA
+  fromClient : d0.srv = false
+  firstLong : d0.longs ≠ []
+  described : QDescribed2 fl (DgM.wire H Pc L d0.dcid sel sh ch sa ca)
+    (wireOf H Pc L sel .v1 (rfcGen (hashOf H sel.hash) sel.keyLen sa ca 0)) (optsOf args ports pm) (evsA ++ evsB)
+  phaseA : ∀ ev ∈ evsA, noOne2 ev = true
+  phaseB : ∀ ev ∈ evsB, noMix2 ev = true
+  /-- the mixed part: `MixDgs` (conformant long-header packets; a 1-RTT packet only after the ServerHello was captured, in key
+      generation 0, with the datagram's DCID), carrying the handshake's CRYPTO frames; routable (`RoutesM`) -/
+  mixDgs : MixDgs maskFn H Pc L d0.dcid sel sh ch sa ca trk0 (d0 :: itemsA.map (·.2.2))
+  mixIns : allInsM (d0 :: itemsA.map (·.2.2)) = hs.ins
+  keyed : (trk0.runM (d0 :: itemsA.map (·.2.2))).keyed = true
+  routesA : RoutesM (DgM.wire H Pc L d0.dcid sel sh ch sa ca) (trk0.dgm d0) (itemsA.map (·.2.2))
+  /-- the 1-RTT-only part: `Send1` (any key updates), routable (`Routes1`) -/
+  send1 : Send1 maskFn H Pc L sel .v1 (rfcGen (hashOf H sel.hash) sel.keyLen sa ca 0)
+      (quicHp (hashOf H sel.hash) ca sel.keyLen) (quicHp (hashOf H sel.hash) sa sel.keyLen)
+      (chachaOf (trk0.runM (d0 :: itemsA.map (·.2.2))).core) 0 0
+      (trk0.runM (d0 :: itemsA.map (·.2.2))).tc.app (trk0.runM (d0 :: itemsA.map (·.2.2))).ts.app
+      (trk0.runM (d0 :: itemsA.map (·.2.2))).cc (trk0.runM (d0 :: itemsA.map (·.2.2))).sc
+      ((oneItems2 fl evsA.length evsB).map (·.2))
+  routesB : Routes1 (wireOf H Pc L sel .v1 (rfcGen (hashOf H sel.hash) sel.keyLen sa ca 0))
+      (trk0.runM (d0 :: itemsA.map (·.2.2))).cc (trk0.runM (d0 :: itemsA.map (·.2.2))).sc
+      ((oneItems2 fl evsA.length evsB).map (·.2))
+  /-- the datagrams that carry 1-RTT packets differ pairwise in (capture microsecond, direction) -/
+  distinct : ((shortsOf (d0 :: itemsA.map (·.2.2)) ++ (oneItems2 fl evsA.length evsB).map (·.2)).map
+      fun d => (d.x.ts, d.x.srv)).Pairwise (· ≠ ·)
+  /-- the OTHER QUIC connections of the capture are separated from this one in the sense of Props/C04 (`QuicSeparated`: at
+      no moment of either run alone does a session exist that recognises a datagram of the other — other 4-tuple, DCID not
+      among its connection IDs, none of its connection IDs a prefix of the short-header bytes), both ways -/
+  sepOwn : QuicSeparated (quicMachine maskFn H Pc (capInfo ((evsA ++ evsB).map QEv2.cap))) (optsOf args ports pm)
+      (ownView fl ((fileKeysOf keyFile).getD []) ((kl0, p0, d0) :: itemsA) (oneItems2 fl evsA.length evsB))
+      (othView (optsOf args ports pm) ((fileKeysOf keyFile).getD []) 0 (evsA ++ evsB))
+  sepOther : QuicSeparated (quicMachine maskFn H Pc (capInfo ((evsA ++ evsB).map QEv2.cap))) (optsOf args ports pm)
+      (othView (optsOf args ports pm) ((fileKeysOf keyFile).getD []) 0 (evsA ++ evsB))
+      (ownView fl ((fileKeysOf keyFile).getD []) ((kl0, p0, d0) :: itemsA) (oneItems2 fl evsA.length evsB))
+
+variable {maskFn H Pc}
+
+/-- the block of the connection's session: one UDP frame per datagram whose 1-RTT packet carried STREAM data, mixed part and
+    1-RTT-only part in capture order -/
+def blockOf2 (args : Args) (pm : List (Int × Int)) (ports : List Int) (fl : Flow) (evsA evsB : List QEv2)
+    (p0 : MainLoop.Pkt) (d0 : DgM) (itemsA : List (List Keylog.Key × MainLoop.Pkt × DgM)) : List Pipeline.OutPkt :=
+  expectedOut ((quicMachine maskFn H Pc (capInfo ((evsA ++ evsB).map QEv2.cap))).new (optsOf args ports pm) p0)
+    (shortsOf (d0 :: itemsA.map (·.2.2)) ++ (oneItems2 fl evsA.length evsB).map (·.2))
+
+/-- **C02 FROM FILE TO FILE, one interleaved connection among other QUIC connections.** As `C02File.quic_capture_exact`,
+    for a capture in which (1) the connection's datagrams are coalesced packets of several levels in any interleaving —
+    1-RTT data before the end of the handshake, 1-RTT packets behind Handshake packets — and (2) datagrams of OTHER QUIC
+    connections, separated from this one in C04's sense, stand anywhere between them: the output file contains, as the
+    block of the connection's session, exactly `blockOf2`. -/
+theorem quic_capture_exact2 {L : SealLaws Pc} {args : Args} {keyFile : Option Keylog.Str} {pm : List (Int × Int)}
+    {ports : List Int} {fl : Flow} {hs : ConfHs} {ch sh ca sa : Bytes} {early : Option Bytes} {sel : SuiteSel}
+    {evsA evsB : List QEv2} {kl0 : List Keylog.Key} {p0 : MainLoop.Pkt} {d0 : DgM}
+    {itemsA : List (List Keylog.Key × MainLoop.Pkt × DgM)}
+    (h : QuicCapture2 maskFn H Pc L args keyFile pm ports fl hs ch sh ca sa early sel evsA evsB kl0 p0 d0 itemsA)
+    (legacy : Bool) (file : Bytes)
+    (hread : Container.read legacy file = .ok (((evsA ++ evsB).map QEv2.cap).map CapEv.item)) :
+    (∃ e, exportFile maskFn H Pc args legacy keyFile file = .abort (.write e)) ∨
+    ∃ f, exportFile maskFn H Pc args legacy keyFile file = .file f ∧
+      ReadsBack f (blockOf2 (maskFn := maskFn) (H := H) (Pc := Pc) args pm ports fl evsA evsB p0 d0 itemsA) := by
+  obtain ⟨hcap, S1, S2, sess, hq, hblk⟩ := quic_capture_session2 maskFn H Pc h.lawful h.sha256 L args keyFile evsA evsB
+    h.times h.noc h.nometa pm ports h.pmOk h.portsOk fl h.endpoints h.clientPort hs h.hsOk ch sh ca sa early sel h.suite
+    h.outLen h.saLen h.caLen h.keylog kl0 p0 d0 itemsA h.first h.fromClient h.firstLong h.described h.phaseA h.phaseB
+    h.mixDgs h.mixIns h.keyed h.routesA h.send1 h.routesB h.distinct h.sepOwn h.sepOther
+  exact export_of_quic_session_among maskFn H Pc args legacy keyFile file _ hread hcap h.noc pm ports h.pmOk h.portsOk
+    S1 S2 sess hq _ hblk
+
+/-- … for the BYTES of a capture file written by the independent container encoder in ANY variant -/
+theorem quic_capture_exact2_encoded {L : SealLaws Pc} {args : Args} {keyFile : Option Keylog.Str} {pm : List (Int × Int)}
+    {ports : List Int} {fl : Flow} {hs : ConfHs} {ch sh ca sa : Bytes} {early : Option Bytes} {sel : SuiteSel}
+    {evsA evsB : List QEv2} {kl0 : List Keylog.Key} {p0 : MainLoop.Pkt} {d0 : DgM}
+    {itemsA : List (List Keylog.Key × MainLoop.Pkt × DgM)}
+    (h : QuicCapture2 maskFn H Pc L args keyFile pm ports fl hs ch sh ca sa early sel evsA evsB kl0 p0 d0 itemsA)
+    (cv : Spec.Containers.Variant) (cevs : List Spec.Containers.Ev) (hcwf : cv.WF cevs)
+    (hitems : cevs.filterMap (Spec.Containers.scale cv) = ((evsA ++ evsB).map QEv2.cap).map CapEv.item) :
+    (∃ e, exportFile maskFn H Pc args cv.isLegacy keyFile (Spec.Containers.encode cv cevs) = .abort (.write e)) ∨
+    ∃ f, exportFile maskFn H Pc args cv.isLegacy keyFile (Spec.Containers.encode cv cevs) = .file f ∧
+      ReadsBack f (blockOf2 (maskFn := maskFn) (H := H) (Pc := Pc) args pm ports fl evsA evsB p0 d0 itemsA) :=
+  quic_capture_exact2 h cv.isLegacy _ (by rw [Props.C12.reader_roundtrip cv cevs hcwf, hitems])
+
+end Capture2
 end TLX.Props.C02File2
